@@ -224,3 +224,5 @@ Fixpoint strs_eqb (a b : list string) : bool :=
   end.
 Definition show_decls (d : decls) : string :=
   String.concat ";" (map (fun x => (fst x ++ "=" ++ show_strs "," (snd x))%string) d).
+Definition show_parts (ps : parts) : string :=
+  String.concat "," (map (fun p => (fst p ++ ":" ++ show_nat (snd p))%string) ps).
